@@ -458,6 +458,74 @@ func recvBody(role string) func(x *harness.X) {
 	}
 }
 
+// afterTerminalBody: the real client channel is established against a scripted
+// server which then ends the session (finished or failed) but keeps the
+// connection open; afterwards every send operation must fail and write nothing.
+func afterTerminalBody(x *harness.X) {
+	lib.Reset()
+	s := &rst{role: "client-after-terminal"}
+	x.Vars["rst"] = s
+	term := []string{"failed", "finished"}[rt.Choose(2)]
+	s.what = term + "/" + whats[rt.Choose(len(whats))]
+	cconn, sconn := rt.Pipe(64 << 10)
+	tr := lime.NewTCPTransportFromConn(cconn, nil, false)
+	cc := lime.NewClientChannel(tr, 1)
+	ctx, cancel := context.WithTimeout(context.Background(), 30*time.Second)
+	defer cancel()
+	p := lib.NewRawPeer(sconn)
+	go func() {
+		p2 := p
+		p2.Block = true
+		if _, ok := p2.ReadOne(30 * time.Second); !ok {
+			return
+		}
+		_ = p2.Send([]byte(`{"state":"established","id":"S1","from":"postmaster@srv.test/s1","to":"alice@cli.test/h"}`))
+	}()
+	ses, err := cc.EstablishSession(ctx, lime.NoneCompressionSelector, lime.NoneEncryptionSelector, lime.Identity{Name: "alice", Domain: "cli.test"}, lime.GuestAuthenticator, "h")
+	if err != nil || ses.State != lime.SessionStateEstablished {
+		x.Failf("setup", "could not establish: %v", err)
+		rt.Stop()
+	}
+	p.Block = false
+	reason := ""
+	if term == "failed" {
+		reason = `,"reason":{"code":1,"description":"bye"}`
+	}
+	_ = p.Send([]byte(`{"state":"` + term + `","id":"S1","from":"postmaster@srv.test/s1"` + reason + `}`))
+	rt.Quiesce()
+	<-cc.RcvDone()
+	x.Obs("client saw the end of the session, state=%v", cc.State())
+	written := false
+	sconn.Tap = nil
+	cconn.Tap = func(b []byte) { written = true }
+	st2 := &st{}
+	c := &callRec{role: "client", what: strings.SplitN(s.what, "/", 2)[1], id: "late"}
+	doCall(ctx, x, st2, cc, c)
+	rt.Quiesce()
+	s.estErr = c.err
+	s.estRet = written
+	s.snap = true
+	rt.Stop()
+}
+
+func afterTerminalFinal(x *harness.X, res *rt.Result) {
+	s, _ := x.Vars["rst"].(*rst)
+	if s == nil || !s.snap {
+		return
+	}
+	hist := fmt.Sprintf("[%s; %s]", s.what, strings.Join(x.Log(), " | "))
+	if res.Crash != "" {
+		x.Failf("panic:"+res.CrashSite, "%s %s", strings.SplitN(res.Crash, "\n", 2)[0], hist)
+		return
+	}
+	if s.estErr == nil {
+		x.Failf("send-ok-after-peer-end:"+s.what, "the peer ended the session (%s) and the send still reported success %s", s.what, hist)
+	}
+	if s.estRet {
+		x.Failf("data-after-peer-end:"+s.what, "the peer ended the session (%s) and the send still wrote to the connection %s", s.what, hist)
+	}
+}
+
 func recvFinal(x *harness.X, res *rt.Result) {
 	s, _ := x.Vars["rst"].(*rst)
 	if s == nil {
@@ -494,13 +562,14 @@ func main() {
 	harness.Main(harness.Check{
 		Property: "C06",
 		Level:    "model_checking",
-		Rule:     "send direction: teardown {client finish, server finish, server fail} x one send call per role from {SendMessage, SendNotification, SendRequestCommand, SendResponseCommand, ProcessCommand} x release stage per role {from the start, once established, once torn down} as data choices (675 combinations) over the in-process and TCP transports, all schedules within the deviation bound (delay bounding) from before the handshake; wire taps decode what was really written. Receive direction: each data envelope kind injected at each of 3 handshake positions against the real Server and the real ClientChannel; distinct outcome = distinct observation log",
+		Rule:     "send direction: teardown {client finish, server finish, server fail} x one send call per role from {SendMessage, SendNotification, SendRequestCommand, SendResponseCommand, ProcessCommand} x release stage per role {from the start, once established, once torn down} as data choices (675 combinations) over the in-process and TCP transports, all schedules within the deviation bound (delay bounding) from before the handshake; wire taps decode what was really written. After a peer-sent finished/failed on a connection the peer keeps open, each of the five send operations must fail and write nothing. Receive direction: each data envelope kind injected at each of 3 handshake positions against the real Server and the real ClientChannel; distinct outcome = distinct observation log",
 		Assume:   []string{"in-process transport has no wire: 'written' is approximated there by 'delivered to the peer application'", "calls that overlap a transition may linearise on either side (the statement does not say otherwise)"},
 		Scenarios: []harness.Scenario{
 			{Name: "send/tcp", Opt: opt, Quick: 1, Thorough: 2, Prune: false, Body: sendBody("tcp"), Final: sendFinal},
 			{Name: "send/inproc", Opt: opt, Quick: 1, Thorough: 1, Prune: false, Body: sendBody("inproc"), Final: sendFinal},
 			{Name: "receive/server", Opt: ropt, Quick: 0, Thorough: 1, Prune: false, Body: recvBody("server"), Final: recvFinal},
 			{Name: "receive/client", Opt: ropt, Quick: 0, Thorough: 1, Prune: false, Body: recvBody("client"), Final: recvFinal},
+			{Name: "send/client-after-peer-ended-session", Opt: ropt, Quick: 0, Thorough: 1, Prune: false, Body: afterTerminalBody, Final: afterTerminalFinal},
 		},
 	})
 }
